@@ -19,7 +19,7 @@ EXPLANATION = (
     "the shapes of state.setter/_next_state/_change_state/next_state_indirect the model assumes are checked; R3 the "
     "three uncommandable targets raise before any controlword store; R4 mode tables mutually consistent and equal to "
     "CiA 402, support check dominates both 0x6060 stores and its TypeError is not swallowed; R5 the controlword "
-    "setter hands every assigned value to the drive (PDO store + transmit when not periodic, else SDO) on every path. R6 no class-level mutable object is mutated in place by instances (each node/client/map/dictionary has its own state)."
+    "setter hands every assigned value to the drive (PDO store + transmit when not periodic, else SDO) on every path; R6 structural assumptions shared by all properties: no class-level mutable object is mutated in place by instances, no method re-runs the constructor, logging statements cannot raise."
 )
 ASSUMPTIONS = [
     "not decided: drive timing, automatic transitions racing the library's status reads, timeouts",
